@@ -71,7 +71,8 @@ def run(R):
             for c in b.calls():
                 if (c.trait or "") == c10.R2R_TRAIT and c.name() in ("add", "remove", "load_triples"):
                     n += 1
-                    ok = b.key in pf
+                    # the constructor may load the initial ABox given by the builder (explicit API, before any window fires)
+                    ok = b.key in pf or (c.name() == "load_triples" and b.name == "new" and b.self_adt == ENG)
                     R.ob("C11-R1", "window-store-writer:%s:%s" % (b.short, c.name()), "the window store is loaded/evicted only by the window "
                          "processor (found R2ROperator::%s in %s)" % (c.name(), b.pretty), ok, where=b.where(c.ln),
                          detail=None if ok else "content from another source (e.g. static data) becomes visible to window blocks")
